@@ -1852,6 +1852,7 @@ func (c *cachedDnsForwarder) endUse() {
 		return
 	}
 	c.touch(time.Now())
+	verifYield("dns-enduse-1")
 	if c.inFlight.Add(-1) == 0 && c.retired.Load() {
 		_ = c.closeNow()
 	}
